@@ -95,7 +95,8 @@ def canary_run(unit, only=None):
         return t2
     tag = "canary" if only is None else "canary-" + re.sub(r"[^A-Za-z0-9]+", "_", only)[-60:]
     res = R.run_unit(unit, text_override=ov, tag=tag)
-    if res.meta is None or res.status != "ok":
+    if res.meta is None or (res.status != "ok" and "resource limit" not in (res.reason or "")
+                            and "spec-level lemma" not in (res.reason or "")):
         return False, [], res.reason
     text = holder.get("text", "")
     canary_lines = {}
